@@ -439,6 +439,46 @@ Proof.
     + apply in_map_iff in H as (m & E & _). discriminate.
 Qed.
 
+(* which by-digest references the rebuilt index has when GC keeps those of live descriptors
+   (kl = true: the code as it is) *)
+Lemma gc_index_digs :
+  exists ix' g,
+    gc_index succ subject manifest cfg_fixed true ords st = Some (ix', g) /\
+    forall d r, In (RDig d, r) ix' <->
+      d = r /\ ((exists t, In (RTag t, r) ix) \/ ((exists d', In (RDig d', r) ix) /\ Live r)).
+Proof.
+  destruct (gc_index_spec true) as (ix1 & g1 & E1 & HL & HT).
+  destruct (gc_passes_spec (S (length (candidates ix))) 0 _ [] GInv_init ltac:(simpl; lia))
+    as (g & kept & Hp & I & Hfin).
+  assert (E2 : gc_index succ subject manifest cfg_fixed true ords st =
+    Some (filter (fun e => match fst e with RTag _ => true | _ => false end) ix ++
+          map (fun n => (RDig n, n))
+            (dedup (tagged_nodes ix) ++ kept ++ filter (fun n => memb n g) (digested ix)), g)).
+  { unfold gc_index. fold ix bl. change (clo succ manifest cfg_fixed bl) with (closure succ bl).
+    rewrite Hp. reflexivity. }
+  rewrite E2 in E1. injection E1 as <- <-.
+  eexists _, g. split; [exact E2|]. intros d r.
+  assert (Hdig : forall n, In n (digested ix) <-> exists d', In (RDig d', n) ix).
+  { intro n. unfold digested. rewrite in_flat_map. split.
+    - intros ([r' m] & He & Hm). simpl in Hm. destruct r'; simpl in Hm; try contradiction.
+      destruct Hm as [<-|[]]. eauto.
+    - intros (d' & H). exists (RDig d', n). split; [assumption|now left]. }
+  split.
+  - intro H. apply in_app_or in H as [H|H].
+    + apply filter_In in H as [_ H]. discriminate.
+    + apply in_map_iff in H as (n & E & Hn). injection E as <- <-. split; [reflexivity|].
+      apply in_app_or in Hn as [Hn|Hn].
+      * left. apply (proj1 (dedup_In _ _)) in Hn. now apply tagged_nodes_In.
+      * right. apply in_app_or in Hn as [Hn|Hn].
+        -- split; [|apply HL; now apply (gi_kept _ _ I)].
+           apply (gi_cand _ _ I) in Hn. apply candidates_In in Hn. tauto.
+        -- apply filter_In in Hn as [Hn Hg]. split; [now apply Hdig|]. apply HL. now apply memb_In.
+  - intros [-> [(t & Ht)|[Hd HLr]]]; apply in_or_app; right; apply in_map_iff; exists r; (split; [reflexivity|]).
+    + apply in_or_app. left. apply dedup_In. apply tagged_nodes_In. eauto.
+    + apply in_or_app. right. apply in_or_app. right. apply filter_In.
+      split; [now apply Hdig|]. apply memb_In. now apply HL.
+Qed.
+
 End GC.
 
 (* The live set depends only on the tags, on which descriptors have a by-digest reference and
@@ -2287,4 +2327,17 @@ Proof.
   intros succ subject manifest H1 H2 kl ops p.
   destruct (prun_inv succ subject manifest H1 H2 kl ops) as [Hw Hn]. fold p in Hw, Hn.
   split; [exact Hw|]. intro n. now apply no_stale_tagged.
+Qed.
+
+Lemma gc_digest_refs_final : forall succ subject manifest,
+  acyclic succ -> subject_listed succ subject ->
+  forall ords st, same_elements ords (candidates (idx st)) ->
+  let st' := fst (gc succ subject manifest cfg_fixed true ords st) in
+  forall d r, In (RDig d, r) (idx st') <->
+    d = r /\ ((exists t, In (RTag t, r) (idx st)) \/
+              ((exists d', In (RDig d', r) (idx st)) /\ Live succ subject manifest st r)).
+Proof.
+  intros succ subject manifest H1 H2 ords st Ho st'. unfold st', gc.
+  destruct (gc_index_digs succ subject manifest H1 H2 st ords Ho) as (ix' & g & E & H).
+  rewrite E. cbn [fst idx]. exact H.
 Qed.
